@@ -170,7 +170,7 @@ func parseModel(out string) map[string]string {
 }
 
 // Solve races the back ends; in thorough mode all are run to completion and compared.
-func Solve(file string, timeoutS int, all bool) *SolveResult {
+func Solve(file string, timeoutS int, all bool, cover bool) *SolveResult {
 	ctx, cancel := context.WithCancel(context.Background())
 	defer cancel()
 	type ans struct {
@@ -206,6 +206,9 @@ func Solve(file string, timeoutS int, all bool) *SolveResult {
 			res.Disagree = fmt.Sprintf("%s says %s, %s says %s", best.b, best.status, a.b, a.status)
 		}
 		if best == nil && a.status == "unknown" {
+			if cover && !all {
+				cancel()
+			}
 			res.Status = "unknown"
 			res.Backend = a.b
 			res.Output = a.out
